@@ -41,13 +41,15 @@ CHECKS = {
         note=TRUST + "Quick: histories of <= 2 actions beyond the table (depth 3), <= 3 rows, <= 2 indexes, a seeded sample of 1 500 histories x 14 "
              "probes; thorough: depth 4, 12 000 histories x 24 probes. Sampled, so a different VERIF_SEED explores other histories."),
     "C03": dict(
-        engine="engine", category="model_checking", technique=T_SEM + "; twin runs with the columnar gate on and off (hook H1)",
+        engine="engine", category="model_checking", technique=T_SEM + "; twin runs with the columnar gate on and off (hook H1); cross-configuration trace equality decided by TLC (ConfigEq.tla) beyond one SIMD batch",
         design="DESIGN.md section 6 (C03), section 10",
         text="Every aggregate query of families F4/F4S (COUNT(*)/COUNT/SUM/AVG/MIN/MAX, DISTINCT aggregates, WHERE shapes, HAVING, LIMIT/OFFSET, GROUP BY "
              "variants that the gate declines) is run on every database TLC enumerates (<= 2 rows quick, <= 3 thorough, incl. empty tables and all-NULL "
              "columns) and on seeded larger tables (4..65 rows: SIMD lane remainders, NULL densities 0..100%), once through the columnar path and once "
              "with VIBESQL_VERIF_COLUMNAR=off (row execution). Both recorded results are validated by TLC against EvalQ; this check reports a mismatch "
-             "that occurs under one configuration but not identically under the other (a difference between the paths); a common deviation is C07's.",
+             "that occurs under one configuration but not identically under the other (a difference between the paths); a common deviation is C07's. "
+             "Large scale: a seeded 2 600-row table (thorough 20 000 rows x 3 seeds; several 1 024-value batches of the SIMD kernels) and 65 aggregate "
+             "queries (13 select lists x 5 WHERE shapes), columnar on / off; ConfigEq.tla demands equal observations event by event.",
         note=TRUST + "Sums near the 64-bit boundary and float columns are not in this model (integers and VARCHAR only)."),
     "C04": dict(
         engine="engine", category="model_checking",
@@ -203,7 +205,7 @@ CHECKS = {
              "as an inlined derived table by three referencing queries (SELECT *, filter + projection, GROUP BY). TLC checks view = CTE = derived table "
              "on the model for every enumerated database (ThmView) and validates every recorded result against EvalQ of the inlined meaning; run plain "
              "and with indexes + ANALYZE, on databases that include empty base tables.",
-        note=TRUST + "Quick: T1 <= 2 rows, T2 <= 1; thorough T2 <= 2. Recursive CTEs and views over views are outside the model."),
+        note=TRUST + "Quick: T1 <= 2 rows, T2 <= 1; thorough T2 <= 2. Recursive CTEs, views over views, and LIMIT / OFFSET inside a view, CTE or derived-table definition are outside the model (the reference semantics slices only the outermost query; a seeded change of exactly that kind is not detected, see seeded/C32-view-pushdown-ignores-limit)."),
     "C33": dict(
         engine="engine", category="model_checking", technique=T_ENGINE, design="DESIGN.md section 6 (C33), section 10",
         text="MC_Ddl.tla: every history (from three starting points) of CREATE / DROP TABLE on one re-used name, CREATE / DROP INDEX, ALTER TABLE ADD "
